@@ -258,6 +258,8 @@ def check(ctx: Ctx) -> None:
     # container selection with (A or B) and (C or D) criteria, two matching siblings, a concrete root with no matching child
     from .c01 import end_to_end, end_to_end_second
     ctx.guard("R5.e2", PARSE, end_to_end_second, ctx, "R5.e2")
+    from .c01 import end_to_end_third
+    ctx.guard("R5.e3", PARSE, end_to_end_third, ctx, "R5.e3")
     ctx.guard("R5.e", PARSE, end_to_end, ctx, "R5.e")     # two-level inheritance with conditions on raw / calibrated operands
     # the child is chosen from this packet's values alone: container selection keeps nothing on the definition between packets
     from ..callgraph import CallGraph
@@ -300,7 +302,7 @@ SPEC = PropSpec(
     pid="C05",
     title="Container inheritance selects the unique matching structure, in order",
     check=check,
-    floors={"R5.1": 19, "R5.5": 2, "R5.view": 1, "R5.e2": 10, "R5.e": 12, "R5.pure": 10, "R5.fresh": 1},
+    floors={"R5.e3": 20, "R5.1": 19, "R5.5": 2, "R5.view": 1, "R5.e2": 10, "R5.e": 12, "R5.pure": 10, "R5.fresh": 1},
     explanation=("Decision table of the descend loop by abstract interpretation: a checker-authored tree (abstract root with "
                  "eight children; an abstract and two concrete second-level containers with 0/1/2 satisfiable children; "
                  "a nested container referenced twice; an unconditional child whose BaseContainer has no "
